@@ -311,6 +311,8 @@ STD_HISTORY = [
     {"id": None, "st": None, "fn": "f", "fb": "6162", "eof": True, "mt": "text/plain", "tags": None},
     {"id": "c", "st": "success", "tags": [], "rc": "0/1", "runnable": False},
     {"id": "d", "st": "xfail", "tags": ["a"], "ts": 0},
+    {"id": "e", "st": "inprogress", "ts": 10 ** 9},
+    {"id": "e", "st": "success"},
     "stop",
 ]
 
@@ -339,8 +341,10 @@ def random_event(rng):
     r = rng.random()
     if r < 0.3:
         e["ts"] = None
-    elif r < 0.6:
+    elif r < 0.55:
         e["ts"] = rng.randint(-5, 5)
+    elif r < 0.6:
+        e["ts"] = 10 ** 9      # a supplied time far ahead of the local clock (a worker whose clock is off)
     if rng.random() < 0.4:
         e["rc"] = rng.choice([None, "0", "0/1", "1"])
     if rng.random() < 0.3:
@@ -361,7 +365,7 @@ def run(ctx):
             n += 1
             ctx.execute("tree", {"tree": t, "history": STD_HISTORY})
     ctx.note_space("generator set: %d trees of depth <= 2 and %d of depth 3, each with the standard "
-                   "8-step history" % (len(upto2), len(depth3)), n)
+                   "10-step history" % (len(upto2), len(depth3)), n)
     ctx.notes["random_cases"] = True
     for i in range(ctx.scale(40000, 2000000)):
         if ctx.out_of_time():
